@@ -13,6 +13,12 @@ pub mod legality;
 pub mod structural;
 pub mod c01;
 pub mod c02;
+pub mod monitors;
+pub mod corpus;
+pub mod c03;
+pub mod c06;
+pub mod c07;
+pub mod c08;
 
 use report::{Args, Report};
 
@@ -21,7 +27,12 @@ pub fn dispatch(cmd: &str, args: &Args, rep: &mut Report) -> bool {
         "C10" => c10::run(args, rep),
         "C01" => c01::run(args, rep),
         "C02" => c02::run(args, rep),
+        "C03" => c03::run(args, rep),
+        "C06" => c06::run(args, rep),
+        "C07" => c07::run(args, rep),
+        "C08" => c08::run(args, rep),
         "try" => trycmd(args),
+        "probe" => probecmd(args),
         _ => return false,
     }
     true
@@ -63,4 +74,25 @@ fn trycmd(args: &Args) {
     }
     let mut st = Default::default();
     println!("legality: {:?}", legality::check(&f, &out.res, &mut st));
+}
+
+/// `rv probe file.xml [--prequeue] e1 e2 …` prints the canonical trace of the real interpreter
+fn probecmd(args: &Args) {
+    let file = &args.extra[0];
+    let xml = std::fs::read_to_string(file).expect("xml file");
+    let mut events: Vec<String> = args.extra[1..].to_vec();
+    let prequeue = events.first().map(|s| s == "--prequeue").unwrap_or(false);
+    if prequeue {
+        events.remove(0);
+    }
+    let out = structural::run_real_mode(&xml, &events, prequeue);
+    println!("status: {:?} panicked={}", out.res.status, out.res.session_thread_panicked);
+    for l in &out.observed {
+        println!("{}", l);
+    }
+    if std::env::var("RV_RAW").is_ok() {
+        for e in &out.res.log {
+            println!("{}", e.line());
+        }
+    }
 }
